@@ -48,7 +48,17 @@ def expect_binop(w, op, s1, s2):
         if sc1 is None:
             if s1 == s2:
                 return ('num',)
-            return ('skip', 'same no-ref type, different units')
+            if ud1 is None or ud2 is None:
+                return ('skip', 'same no-ref type, no unit dims')
+            if list(w.types[t1].registered_converters()):
+                return ('skip', 'type converted through converters')
+            if ud1 == ud2:
+                # e.g. EUR/kg : EUR/g, same base units: the exact number, or
+                # a refusal (the type has no implicit factors)
+                return ('num-or-raise',)
+            # different base units (EUR/kg : USD/kg, n1 : n2): there is no
+            # common scale, a plain number would be wrong
+            return ('mustraise',)
         return ('num',)
     dim = O.dim_mul(d1, d2, sign)
     if not dim:
@@ -176,6 +186,21 @@ def run_binop(w, op, kind, s1, a1, s2, a2, st=None):
                      type(res).__name__)] += 1
     sign = 1 if op == '*' else -1
     tuple_form = kind == 'uu'
+    if exp[0] == 'num-or-raise':
+        if err is not None:
+            if isinstance(err, Q.QuantityError):
+                return []
+            return [(sig + ':noref-exc', f"{what} raised "
+                     f"{type(err).__name__}")]
+        value = (vx * w.um[s1].ufac) / (vy * w.um[s2].ufac)
+        return judge_num(res, value, what, sig + ':noref-same-base',
+                         kind == 'uu')
+    if exp[0] == 'mustraise':
+        if isinstance(err, Q.QuantityError):
+            return []
+        return [(sig + ':noref-units-divided', f"{what}: units of one type "
+                 "without common scale; expected a QuantityError, got "
+                 f"{type(err).__name__ if err else repr(res)}")]
     if exp[0] == 'undef':
         if isinstance(err, Q.UndefinedResultError):
             return []
@@ -189,8 +214,8 @@ def run_binop(w, op, kind, s1, a1, s2, a2, st=None):
                     else f"a {exp[1].name}"))]
     if exp[0] == 'num':
         sc1, sc2 = w.um[s1].scale, w.um[s2].scale
-        if sc1 is None:         # same unit of a no-ref type
-            value = vx / vy
+        if sc1 is None:         # units of a no-ref type with equal base units
+            value = (vx * w.um[s1].ufac) / (vy * w.um[s2].ufac)
         else:
             value = (vx * sc1) * (vy * sc2) ** sign
         return judge_num(res, value, what, sig, tuple_form)
